@@ -527,3 +527,252 @@ def run(ctx):
     _run_main(ctx)
     extras(ctx)
     ctx.flush()
+
+
+# ---- extras2 (harness extension hx_a): large OBJECT-level problems, extreme time steps, setters / wrappers, containers, histories ----------
+#
+# Not demanded: Python lists / tuples for the frequency and amplitude arguments of the array-level functions (`x[:, np.newaxis]` raises
+# TypeError: a loud restriction of the domain); float32 frequency / amplitude arrays are smoothed in single precision (compared at 1e-5);
+# exactness of |z| under power-of-two scaling is platform behaviour of hypot: object-level scaling is compared to 8 ulp, not bit for bit.
+
+def _x2_ko_cols(band, fs, targets):
+    """normalised Konno-Ohmachi weights with NumPy, one column per target (weight 1 where f == fc)"""
+    x = band * np.log10(np.asarray(fs, dtype=float)[:, None] / np.asarray(targets, dtype=float)[None, :])
+    with np.errstate(all='ignore'):
+        w = np.where(x == 0, 1.0, (np.sin(x) / x) ** 4)
+    return w / np.sum(w, axis=0)
+
+
+def _x2_close(x, y, k=1.0, ulps=8):
+    x, y = np.asarray(x, dtype=float), np.asarray(y, dtype=float)
+    if x.shape != y.shape:
+        return False
+    with np.errstate(all='ignore'):
+        ky = k * y
+    return bool(np.all(np.abs(x - ky) <= ulps * 2.0 ** -53 * np.abs(ky) + 1e-250 * max(1.0, abs(k))))
+
+
+def _x2_bandwidth_ok(im, o, s, smv, ratio):
+    """calc_bandwidth_freqs / f_min / f_max == first and last target above ratio*max; None when an entry is within 1e-9 of the limit"""
+    s = np.asarray(s, dtype=float)
+    lim = float(np.max(s)) * ratio
+    if np.any(np.abs(s - lim) <= 1e-9 * lim):
+        return None
+    above = np.nonzero(s > lim)[0]
+    rb, rlo, rhi = call_impl(im.calc_bandwidth_freqs, o, ratio=ratio), call_impl(im.calc_bandwidth_f_min, o, ratio=ratio), call_impl(im.calc_bandwidth_f_max, o, ratio=ratio)
+    if rb[0] != 'ok' or rlo[0] != 'ok' or rhi[0] != 'ok' or len(above) == 0:
+        return False
+    fpk = float(smv[int(np.argmax(s))])
+    return (float(rb[1][0]), float(rb[1][1])) == (float(smv[above[0]]), float(smv[above[-1]])) == (float(rlo[1]), float(rhi[1])) and float(rb[1][0]) <= fpk <= float(rb[1][1])
+
+
+def x2_large_object(ctx):
+    """LARGE object-level problems (records of 9 000 - 60 000 samples: 8 192 - 32 768 Fourier bins, up to 2^22 weights; quick tier: 2^19 .. 2^20): object == direct ==
+    matrix form, the weights are the normalised non-negative Konno-Ohmachi window (NumPy, on a subset of targets), bounds, bandwidth limits"""
+    import eqsig
+    from eqsig import im
+    from eqsig.fns import frequency as fq
+    rng = ctx.rng
+    quick = ctx.tier == 'quick'
+    for npts, n_sm, cls_name in ([(12000, None, 'Signal'), (9000, 130, 'AccSignal')] if quick else
+                                 [(40000, None, 'Signal'), (9000, 300, 'AccSignal'), (20000, 120, 'AccSignal'), (5001, 700, 'Signal'), (60000, 40, 'AccSignal')]):
+        dt = rng.choice([0.01, 0.005, 0.02])
+        v = gen.noise_record(rng, npts) * np.exp(-((np.arange(npts) - npts / 3) / (npts / 5)) ** 2) + 0.2 * np.sin(2 * math.pi * rng.uniform(1.0, 8.0) * dt * np.arange(npts))
+        nyq = 0.5 / dt
+        sm = None if n_sm is None else np.exp(np.linspace(math.log(nyq / 400), math.log(nyq * 0.9), n_sm))
+        band = rng.choice([20, 40, 80])
+        cls = getattr(eqsig, cls_name)
+        o = cls(v, dt) if sm is None else (cls(v, dt, smooth_fa_freqs=sm) if rng.random() < 0.5 else cls(v[:9], dt))
+        if o.npts != npts:        # reached through a history: short record, spectra read, targets set, record replaced
+            _ = o.smooth_fa_spectrum
+            o.smooth_fa_frequencies = sm
+            o.reset_values(v)
+        inputs = {'values': f'enveloped gaussian noise + 0.2 sin, npts={npts} (seed-derived)', 'dt': dt, 'band': band, 'cls': cls_name,
+                  'smooth_fa_frequencies': 'default (50 log-spaced 0.1..30 Hz)' if sm is None else f'{n_sm} log-spaced {nyq / 400:.4g}..{nyq * 0.9:.4g} Hz'}
+        ctx.hist(f'large-object/{npts}')
+        o.gen_smooth_fa_spectrum(band=band)
+        s_obj = np.array(o.smooth_fa_spectrum)
+        smv, fa_f, fa_s = np.array(o.smooth_fa_frequencies), np.array(o.fa_frequencies), np.array(o.fa_spectrum)
+        inputs['weights'] = (len(fa_f) - 1) * len(smv)
+        ctx.count_case(('x2-large-object', npts, n_sm, dt, band, v[:8].tobytes()), True, sample={'fn': cls_name + '.smooth_fa_spectrum (large problem)', **inputs})
+        A = np.abs(fa_s[1:])
+        scale = float(A.max())
+        s_arr = np.asarray(fq.calc_smooth_fa_spectrum(fa_f, fa_s, smv, band=band))
+        M = np.asarray(fq.calc_smoothing_matrix_konno_1998(fa_f, smv, band=band))
+        s_mat = np.asarray(fq.calc_smooth_fa_spectrum_w_custom_matrix(o, M))
+        ctx.oracle('C07.b Signal.smooth_fa_spectrum == calc_smooth_fa_spectrum == matrix form [large problem]', s_obj.shape == s_arr.shape == s_mat.shape == smv.shape and
+                   bool(np.array_equal(s_obj, s_arr) and np.all(np.abs(s_mat - s_arr) <= 1e-12 * scale)), inputs)
+        ctx.oracle('C07.c smoothed spectrum is real and finite (object level) [large problem]', not np.iscomplexobj(s_obj) and bool(np.all(np.isfinite(s_obj))), inputs)
+        ctx.oracle('C07.b min|A| <= smooth_j <= max|A| (object level) [large problem]', bool(np.all(s_obj >= A.min() - 1e-12 * scale) and np.all(s_obj <= A.max() + 1e-12 * scale)), inputs)
+        ctx.oracle('C07.a the weights are non-negative and each column sums to one [large problem]', M.shape == (len(fa_f) - 1, len(smv)) and bool(np.all(M >= 0) and np.all(np.abs(np.sum(M, axis=0) - 1) <= 1e-12)), inputs)
+        idx = sorted(set([0, len(smv) - 1] + [rng.randrange(len(smv)) for _ in range(6)]))
+        W = _x2_ko_cols(band, fa_f[1:], smv[idx])
+        ctx.oracle('C07.a the weights are the normalised Konno-Ohmachi window [sin(b log10(f/fc)) / (b log10(f/fc))]^4 (NumPy, subset of targets) [large problem]',
+                   M.shape[0] == W.shape[0] and bool(np.all(np.abs(M[:, idx] - W) <= 1e-9 * np.max(W, axis=0))), {**inputs, 'targets': idx})
+        ctx.oracle('C07.a each smoothed amplitude is the weighted mean of the non-zero-frequency amplitudes (NumPy, subset of targets) [large problem]',
+                   bool(np.all(np.abs(s_obj[idx] - A @ W) <= 1e-9 * scale)), {**inputs, 'targets': idx})
+        for ratio in (0.707, rng.choice([0.3, 0.5, 0.9])):
+            okb = _x2_bandwidth_ok(im, o, s_obj, smv, ratio)
+            if okb is not None:
+                ctx.oracle('C07.d bandwidth limits are the first and last smoothing frequency above ratio*max, ordered, bracketing the smoothed peak; f_min / f_max are its components '
+                           '[large problem]', okb, {**inputs, 'ratio': ratio})
+        ctx.oracle('C07 the bandwidth functions leave the object\'s smoothed spectrum unchanged', bool(np.array_equal(np.asarray(o.smooth_fa_spectrum), s_obj)), inputs)
+        ctx.oracle('input arrays unchanged', bool(np.array_equal(np.asarray(o.fa_spectrum), fa_s) and np.array_equal(np.asarray(o.smooth_fa_frequencies), smv)), inputs)
+
+
+def x2_small(ctx):
+    """extreme time steps and scales at object level; containers / dtypes; every setter / wrapper of the smoothing frequencies; histories"""
+    import eqsig
+    from eqsig import im
+    from eqsig.fns import frequency as fq
+    rng = ctx.rng
+    for it in range(14 if ctx.tier == 'quick' else 140):
+        npts = rng.randint(8, 160)
+        dt = rng.choice([0.01, 0.02, 0.005, 0.1])
+        whole = it % 2 == 0
+        v = gen.int_record(rng, npts) if whole else gen.dyadic_record(rng, npts)
+        if len(set(v.tolist())) < 2:
+            v[0] += 1.0
+        nyq = 0.5 / dt
+        sm = np.exp(np.linspace(math.log(nyq / 100), math.log(nyq), rng.randint(4, 20)))
+        band = rng.choice(BANDS)
+        cls = rng.choice([eqsig.Signal, eqsig.AccSignal])
+        o0 = cls(v, dt, smooth_fa_freqs=sm)
+        o0.gen_smooth_fa_spectrum(band=band)
+        base = np.array(o0.smooth_fa_spectrum)
+        fa_f, fa_s = np.array(o0.fa_frequencies), np.array(o0.fa_spectrum)
+        inputs = {'values': v, 'dt': dt, 'smooth_fa_frequencies': sm, 'band': band, 'cls': cls.__name__}
+        ctx.count_case(('x2-small', v.tobytes(), dt, sm.tobytes(), band), True)
+        if not np.all(np.isfinite(base)):
+            continue
+        # (a) time step: the Fourier grid and the targets scale by 2^-j, the window only sees their ratios
+        for j in (-300, 300, -40, 40):
+            k = 2.0 ** j
+            ctx.hist(f'extreme-dt/2^{j}')
+            r = call_impl(fq.calc_smooth_fa_spectrum, fa_f / k, np.abs(fa_s), sm / k, band=band)
+            ctx.oracle('C07.a the window depends on frequency RATIOS only: rescaling the Fourier grid and the targets by 2^j leaves the smoothed spectrum unchanged (==), also for '
+                       'extreme steps', r[0] == 'ok' and np.array_equal(np.asarray(r[1]), np.asarray(fq.calc_smooth_fa_spectrum(fa_f, np.abs(fa_s), sm, band=band))), {**inputs, 'scale': f'2**{j}'})
+            o = ctx.aged(cls, v, dt * k, smooth_fa_freqs=sm / k)
+            r = call_impl(lambda: (o.gen_smooth_fa_spectrum(band=band), np.array(o.smooth_fa_spectrum))[1])
+            ctx.oracle('C07 object level: smooth(a, 2^j dt) at targets 2^-j f == 2^j smooth(a, dt) at targets f (8 ulp), also for extreme time steps', r[0] == 'ok' and _x2_close(r[1], base, k),
+                       {**inputs, 'dt_scale': f'2**{j}'}, detail=None if r[0] != 'ok' else {'got': r[1][:3], 'want': base[:3] * k})
+        for kk in gen.EXTREME_POW2:
+            sc = 2.0 ** kk
+            ctx.hist(f'extreme-scale(object)/2^{kk}')
+            o = ctx.aged(cls, v * sc, dt, smooth_fa_freqs=sm)
+            r = call_impl(lambda: (o.gen_smooth_fa_spectrum(band=band), np.array(o.smooth_fa_spectrum))[1])
+            ctx.oracle('C07.b object level: smooth(2^k a) == 2^k smooth(a) (8 ulp), also for records around 1e-180 / 1e+180', r[0] == 'ok' and _x2_close(r[1], base, sc),
+                       {**inputs, 'scale': f'2**{kk}'}, detail=None if r[0] != 'ok' else {'got': r[1][:3], 'want': base[:3] * sc})
+            if r[0] == 'ok' and isinstance(o, eqsig.AccSignal) or r[0] == 'ok':
+                ok0, ok1 = _x2_bandwidth_ok(im, o0, base, sm, 0.707), _x2_bandwidth_ok(im, o, r[1], sm, 0.707)
+                if ok0 is not None and ok1 is not None:
+                    b0, b1 = call_impl(im.calc_bandwidth_freqs, o0), call_impl(im.calc_bandwidth_freqs, o)
+                    ctx.oracle('C07.d the bandwidth limits do not depend on the scale of the record, also at extreme scales', ok1 and b0[0] == b1[0] == 'ok' and
+                               tuple(map(float, b0[1])) == tuple(map(float, b1[1])), {**inputs, 'scale': f'2**{kk}'}, detail=(b0, b1))
+        # (b) containers / dtypes: array-level arguments (ndarrays: integer, strided, float32) and the record of the object
+        A = np.round(np.abs(fa_s) * 8) + 1.0                     # whole-number amplitudes
+        g = np.arange(len(fa_f), dtype=float)                    # whole-number Fourier grid 0, 1, 2, ...
+        t = np.array(sorted(set(rng.randint(1, max(2, len(g) - 1)) for _ in range(5))), dtype=float)
+        ref = call_impl(fq.calc_smooth_fa_spectrum, g, A, t, band=band)
+        refM = call_impl(fq.calc_smoothing_matrix_konno_1998, g, t, band=band)
+        for lab, conv in (('int64', lambda x: x.astype(np.int64)), ('int32', lambda x: x.astype(np.int32)), ('strided', lambda x: np.repeat(x, 2)[::2]), ('float32', lambda x: x.astype(np.float32))):
+            ctx.hist('array containers=' + lab)
+            r = call_impl(fq.calc_smooth_fa_spectrum, conv(g), conv(A), conv(t), band=band)
+            rM = call_impl(fq.calc_smoothing_matrix_konno_1998, conv(g), conv(t), band=band)
+            if lab == 'float32':
+                ok = r[0] == ref[0] == 'ok' and bool(np.all(np.abs(np.asarray(r[1], dtype=float) - ref[1]) <= 1e-4 * np.max(A))) and rM[0] == 'ok' and bool(np.all(np.abs(np.asarray(rM[1], dtype=float) - refM[1]) <= 1e-4))
+            else:
+                ok = r[0] == ref[0] == 'ok' and np.array_equal(r[1], ref[1]) and rM[0] == refM[0] == 'ok' and np.array_equal(rM[1], refM[1])
+            ctx.oracle('C07 frequencies / amplitudes / targets given as integer or strided ndarrays (==) or float32 (1e-4) give the smoothing of the same numbers in float64', ok,
+                       {'fa_frequencies': g, 'fa_spectrum': A, 'smooth_fa_frequencies': t, 'band': band, 'container': lab}, detail=None if r[0] == 'ok' else r)
+        variants = [(lab, c, v) for lab, c in gen.container_variants(v, floats32=False)]
+        if whole:
+            variants += gen.narrow_int_variants(v)
+        for lab, c, fl in variants:
+            ctx.hist('record container=' + lab)
+            want = base if fl is v else (lambda ow: (ow.gen_smooth_fa_spectrum(band=band), np.array(ow.smooth_fa_spectrum))[1])(cls(fl, dt, smooth_fa_freqs=sm))
+            r = call_impl(lambda: (lambda oc: (oc.gen_smooth_fa_spectrum(band=band), np.array(oc.smooth_fa_spectrum))[1])(cls(c, dt, smooth_fa_freqs=sm)))
+            ctx.oracle('C07 an object built from a list / tuple / integer (any width) / strided record has the smoothed spectrum of the same numbers in float64 (==)',
+                       r[0] == 'ok' and np.array_equal(r[1], want), {**inputs, 'values': fl, 'container': lab}, detail=None if r[0] == 'ok' else r)
+        # (c) every way of setting the smoothing frequencies, interleaved with regenerations, reads and record changes on ONE object;
+        #     the expected state is tracked from the ARGUMENTS
+        o = cls(v.copy(), dt)
+        cur_v = v.copy()
+        cur_sm = np.logspace(np.log10(0.1), np.log10(30), 50)
+        cur_band = 40
+        held, hist = [], []
+        for step in range(rng.randint(3, 7)):
+            op = rng.choice(['smooth_fa_freqs=', 'smooth_fa_frequencies=', 'gen(smooth_fa_freqs=)', 'by_range', 'by_range(same)', 'smooth_freq_range=', 'smooth_freq_points=',
+                             'gen(band)', 'generate(band)', 'read', 'reset_values', 'same freqs again'])
+            lo, hi = nyq / rng.choice([50, 100, 200]), nyq * rng.choice([0.5, 0.9, 1.0])
+            npt = rng.randint(3, 25)
+            if op in ('smooth_fa_freqs=', 'smooth_fa_frequencies=', 'gen(smooth_fa_freqs=)'):
+                new = np.linspace(lo, hi, npt) if rng.random() < 0.5 else np.exp(np.linspace(math.log(lo), math.log(hi), len(cur_sm)))   # often the SAME count, same ends
+                if op == 'gen(smooth_fa_freqs=)':
+                    cur_band = rng.choice(BANDS)
+                    o.gen_smooth_fa_spectrum(smooth_fa_freqs=np.array(new), band=cur_band)
+                else:
+                    setattr(o, op[:-1], list(new) if rng.random() < 0.3 else np.array(new))
+                    cur_band = 40
+                cur_sm = np.array(new)
+            elif op in ('by_range', 'by_range(same)'):
+                if op == 'by_range' or not hist or not any(h.startswith('by_range') for h in hist):
+                    last_range = ((lo, hi), npt)
+                o.set_smooth_fa_frequecies_by_range(last_range[0], last_range[1])
+                cur_sm = np.logspace(np.log10(last_range[0][0]), np.log10(last_range[0][1]), last_range[1], base=10)
+                cur_band = 40
+            elif op == 'smooth_freq_range=':
+                o.smooth_freq_range = (lo, hi)
+                cur_sm = np.logspace(np.log10(lo), np.log10(hi), len(cur_sm), base=10)
+                cur_band = 40
+            elif op == 'smooth_freq_points=':
+                o.smooth_freq_points = npt
+                cur_sm = np.logspace(np.log10(cur_sm[0]), np.log10(cur_sm[-1]), npt, base=10)
+                cur_band = 40
+            elif op in ('gen(band)', 'generate(band)'):
+                cur_band = rng.choice(BANDS)
+                (o.gen_smooth_fa_spectrum if op == 'gen(band)' else o.generate_smooth_fa_spectrum)(band=cur_band)
+            elif op == 'reset_values':
+                cur_v = cur_v[::-1] * 2.0 if rng.random() < 0.5 else gen.dyadic_record(rng, rng.randint(8, 160))
+                o.reset_values(cur_v.copy())
+                cur_band = 40
+            elif op == 'same freqs again':
+                o.smooth_fa_freqs = np.array(cur_sm)
+                cur_band = 40
+            hist.append(op)
+            hin = {'start values': v, 'dt': dt, 'cls': cls.__name__, 'history': list(hist), 'band of the last generation': cur_band}
+            got = call_impl(lambda: (o.smooth_fa_spectrum, o.smooth_fa_frequencies, o.smooth_fa_freqs))
+            f_s, f_f = fq.calc_fa_spectrum(eqsig.Signal(cur_v, dt), p2_plus=0)
+            want = call_impl(fq.calc_smooth_fa_spectrum, f_f, f_s, cur_sm, band=cur_band)
+            ctx.hist('smoothing-history/' + op)
+            if op in ('smooth_freq_range=', 'smooth_freq_points=') and got[0] == 'ok' and not np.array_equal(np.asarray(got[1][1], dtype=float), cur_sm):
+                # the deprecated setters rebuild the grid from the CURRENT ends / count through log10 -> logspace: the ends may move by an ulp
+                ok_grid = _x2_close(got[1][1], cur_sm, ulps=64)
+                cur_sm = np.array(got[1][1], dtype=float)
+                want = call_impl(fq.calc_smooth_fa_spectrum, f_f, f_s, cur_sm, band=cur_band)
+            else:
+                ok_grid = got[0] == 'ok' and np.array_equal(np.asarray(got[1][1], dtype=float), cur_sm) and np.array_equal(np.asarray(got[1][2], dtype=float), cur_sm)
+            ctx.oracle('C07 after any sequence of setters (smooth_fa_freqs / smooth_fa_frequencies / gen_smooth_fa_spectrum(smooth_fa_freqs) / set_smooth_fa_frequecies_by_range / deprecated '
+                       'range and point setters) the smoothing frequencies are the ones LAST requested', ok_grid, hin, detail=None if got[0] != 'ok' else {'got': got[1][1], 'want': cur_sm},
+                       facts={'history': list(hist)})
+            ok = got[0] == want[0] and (got[0] != 'ok' or (np.asarray(got[1][0]).shape == np.asarray(want[1]).shape and np.array_equal(np.asarray(got[1][0]), np.asarray(want[1]), equal_nan=True)))
+            ctx.oracle('C07.b after any history the object\'s smoothed spectrum == calc_smooth_fa_spectrum of its CURRENT Fourier spectrum at the LAST requested frequencies and bandwidth '
+                       '(bandwidth 40 after a change of record or frequencies) (==)', ok, hin, detail=(got[0], want[0]), facts={'history': list(hist)})
+            ctx.oracle('C07 smoothed spectra / frequency arrays read from an object earlier are not overwritten by later regenerations', all(np.array_equal(x, cp, equal_nan=True) for x, cp in held), hin,
+                       facts={'history': list(hist)})
+            if got[0] == 'ok':
+                held.extend((x, np.array(x, copy=True)) for x in got[1] if isinstance(x, np.ndarray))
+
+
+def extras2(ctx):
+    x2_large_object(ctx)
+    x2_small(ctx)
+
+
+_run_main2 = run
+
+
+def run(ctx):
+    _run_main2(ctx)
+    extras2(ctx)
+    ctx.flush()
